@@ -464,7 +464,7 @@ func directiveTokens(ts []tok) (n int) {
 var (
 	directives = []string{"*", "_", "~", "`"}
 	spaces     = []string{" ", " ", " ", "\t", "\u00a0", "\u2003", "\u3000", "\u0085", "\u1680", "\u2028", "\r", "\v"}
-	words      = []string{"a", "b", "bc", "word", "x y", "é", "日", "😀", "\\", "0", "-", "a b c"}
+	words      = []string{"a", "b", "bc", "word", "x y", "é", "日", "😀", "\\", "0", "-", "a b c", "\ufeff", "\u200b"}
 	broken     = []string{"\xff", "\xc2", "\xe2\x80", "\x80", "\xe2", "\xf0\x9f\x98", "\xc0\x80"}
 	infos      = []string{"", "", "go", " ", "`", "*x*", "日本", "a b", "\u00a0"}
 )
@@ -576,10 +576,16 @@ func genDoc(t *rapid.T) []byte {
 }
 
 func genInput(t *rapid.T) ([]byte, string) {
-	if rapid.IntRange(0, 1).Draw(t, "grammar") == 1 {
-		return genDoc(t), "gen-grammar"
+	// what some producers put at the very start of a text: a byte order mark,
+	// a zero width character
+	var prefix []byte
+	if rapid.IntRange(0, 7).Draw(t, "docprefix") == 0 {
+		prefix = []byte(pick(t, []string{"\ufeff", "\ufeff", "\u200b", "\ufeff\ufeff", "\u2060"}, "prefix"))
 	}
-	return genBytes(t), "gen-alphabet"
+	if rapid.IntRange(0, 1).Draw(t, "grammar") == 1 {
+		return append(prefix, genDoc(t)...), "gen-grammar"
+	}
+	return append(prefix, genBytes(t)...), "gen-alphabet"
 }
 
 func interesting(b byte) bool {
